@@ -25,14 +25,31 @@ class Oracle:
         # declared-positive symbols (yields, uncertainties): expressions built from them by + × ÷, positive constants, powers and square
         # roots are positive; such an expression compared with a non-positive constant is decided
         if self.positive:
-            def pos(s_):
+            def sign(s_):
+                """'pos' (> 0), 'nonneg' (≥ 0) or None, by structure"""
                 t = s_.t
-                if t[0] == 'var': return t[1] in self.positive
-                if t[0] == 'const': return t[1] > 0
-                if t[0] in ('add', 'mul', 'div'): return pos(t[1]) and pos(t[2])
-                if t[0] == 'pow': return pos(t[1])
-                if t[0] == 'sqrt': return pos(t[1])
-                return False
+                if t[0] == 'var': return 'pos' if t[1] in self.positive else None
+                if t[0] == 'const': return 'pos' if t[1] > 0 else ('nonneg' if t[1] == 0 else None)
+                if t[0] == 'add':
+                    a, b = sign(t[1]), sign(t[2])
+                    if a is None or b is None: return None
+                    return 'pos' if 'pos' in (a, b) else 'nonneg'
+                if t[0] == 'mul':
+                    a, b = sign(t[1]), sign(t[2])
+                    if a is None or b is None: return None
+                    return 'pos' if (a, b) == ('pos', 'pos') else 'nonneg'
+                if t[0] == 'div':
+                    a, b = sign(t[1]), sign(t[2])
+                    if b != 'pos' or a is None: return None
+                    return a
+                if t[0] == 'pow':
+                    a = sign(t[1])
+                    if a == 'pos': return 'pos'
+                    if a == 'nonneg' and t[2].t[0] == 'const' and t[2].t[1] > 0: return 'nonneg'
+                    return None
+                if t[0] == 'sqrt': return sign(t[1])
+                return None
+            pos = lambda s_: sign(s_) == 'pos'
             nonpos_c = lambda s_: s_.t[0] == 'const' and s_.t[1] <= 0
             k1, a1, b1 = cond.t
             if k1 in ('lt', 'le') and nonpos_c(a1) and pos(b1): return True
